@@ -474,6 +474,29 @@ func runTxn1(c *Ctx) {
 							dom = true
 						}
 					}
+					// a function literal handed straight to a function that itself revalidates before any page read
+					// (`in.scanFrom(key, func(rec) …)`) only ever runs after that revalidation
+					if mc, isMC := a.(*ssa.MakeClosure); isMC && !dom {
+						only := len(*mc.Referrers()) > 0
+						var uses func(v ssa.Value)
+						uses = func(v ssa.Value) {
+							for _, r := range *v.Referrers() {
+								switch x := r.(type) {
+								case *ssa.DebugRef:
+								case *ssa.ChangeType:
+									uses(x) // the literal converted to a named callback type
+								case ssa.CallInstruction:
+									if x.Common().StaticCallee() == nil || !must[x.Common().StaticCallee()] {
+										only = false
+									}
+								default:
+									only = false
+								}
+							}
+						}
+						uses(mc)
+						dom = only
+					}
 					if !dom {
 						bad = describeInstr(p, cs)
 					}
@@ -702,8 +725,18 @@ func streamLayout(st *types.Struct) ([]fieldLayout, int, bool) {
 
 // binaryReadTarget finds the struct decoded by the encoding/binary.Read call in fn.
 func binaryReadTarget(fn *ssa.Function) (*ssa.Alloc, *types.Struct, ssa.CallInstruction) {
+	return binaryReadTargetD(fn, 0)
+}
+
+func binaryReadTargetD(fn *ssa.Function, depth int) (*ssa.Alloc, *types.Struct, ssa.CallInstruction) {
 	for _, cs := range callsIn(fn) {
 		callee := cs.Common().StaticCallee()
+		if callee != nil && depth < maxInlineDepth && inlinable != nil && inlinable(callee) {
+			// the decoding may have moved into a freshly extracted helper
+			if a, st, rd := binaryReadTargetD(callee, depth+1); a != nil {
+				return a, st, rd
+			}
+		}
 		if callee == nil || !isLibFunc(callee, "encoding/binary", "Read") {
 			continue
 		}
@@ -1369,7 +1402,7 @@ func runCache(c *Ctx) {
 		var ft types.Type
 		if st, ok := get.Params[0].Type().Underlying().(*types.Pointer).Elem().Underlying().(*types.Struct); ok {
 			for i := 0; i < st.NumFields(); i++ {
-				if st.Field(i).Name() == f {
+				if fieldVarName(st.Field(i)) == f {
 					ft = st.Field(i).Type()
 				}
 			}
